@@ -25,6 +25,7 @@ RULE = (
 )
 ASSUMPTIONS = [
     "reference temporal semantics mc/ref/tempsem.py (DESIGN A.2)",
+    "one validator object per problem validates all of its plans in enumeration order (a verdict must not depend on earlier validations)",
     "AMBIGUOUS plans skipped: same value written by two different steps at one instant, empty condition interval, [t,t) point interval, effect before time 0",
     "no invariants/bounded types in U-TEMP (C04's subject); mutex/epsilon separation not modelled",
 ]
@@ -105,6 +106,8 @@ def check_case(cid, tier, acc):
     em = env.expression_manager
     objs = {o.name: em.ObjectExp(o) for o in prob.all_objects}
     n_plans = 0
+    # ONE validator object validates every plan of this problem (renewed only after it raised)
+    validator = TimeTriggeredPlanValidator(environment=env)
     for plan in utemp.plans(tier, 2):
         if cid and not _relevant(cid, plan):
             continue
@@ -123,8 +126,9 @@ def check_case(cid, tier, acc):
             (s, ActionInstance(prob.action(an), tuple(objs[a] for a in args)), d) for s, an, args, d in plan
         ]
         try:
-            res = TimeTriggeredPlanValidator(environment=env).validate(prob, TimeTriggeredPlan(steps, env))
+            res = validator.validate(prob, TimeTriggeredPlan(steps, env))
         except Exception as e:
+            validator = TimeTriggeredPlanValidator(environment=env)
             acc.violation(
                 "raises:%s:%s|%s" % (type(e).__name__, verdict, lab),
                 "validate raised %s: %s" % (type(e).__name__, str(e)[:160]),
